@@ -15,6 +15,8 @@ import Upnp.Lemmas.C14Call
 import Upnp.Lemmas.C14Desc
 import Upnp.Lemmas.C14Svc
 import Upnp.Lemmas.C14Dev
+import Upnp.Lemmas.C14Bridge
+import Upnp.Gen.C08Types
 namespace Upnp.C14
 open Upnp PyDict
 
@@ -283,5 +285,41 @@ example :
        | .resp 500 b => (match parseFault b with | some (.ok (some 402)) => true | _ => false)
        | _ => false) = true := by
   decide +kernel
+
+/-! ### composition with the merged client models (C05 factory, C08 types) -/
+
+section
+variable {F : Type} (fo : C08.FloatOps F)
+
+/-- **Description half composed with C05/C08.**  `x05` re-reads the document the C14 server model
+    serves (`serializeScpd`, the tree compared with the real server's output on every run) as the
+    symbolic tree of `client_factory`'s merged model; `specOfScpd` is the abstract description
+    (`C05.ScpdSpec`) that document denotes — per variable: name, data type, `sendEvents="yes|no"`
+    from the evented flag, default / one- or two-sided range / allowed list as the `out` texts of the
+    definition's typed values; per action: name and the in- then out-arguments with direction and
+    related variable.  For every definition with distinct variable and action names, in strict and
+    non-strict mode, C05's `serviceBody` — `_create_state_variables`, `_state_variable_create_schema`
+    and the lazily read attributes with **C08's coercers for all 26 types** (table regenerated from
+    const.py), `_create_actions` — applied to the served document returns exactly C05's `mirrorBody`
+    of that description: the object model `factory_mirror` (C05) demands.  Proof: the factory cannot
+    tell the served tree from C05's canonical rendering (`serviceBody_bridge`: child order, the
+    `specVersion` element and empty containers are invisible to it), then C05's `body_render`. -/
+theorem client_sees_definition_c05 (nonStrict : Bool) (fs : Facts) (vars : List VarDef) (sacts : List SAct)
+    (hvn : (vars.map fun v => C05.stripWs v.name).Nodup) (han : (sacts.map (·.name)).Nodup) :
+    C05.serviceBody fo Gen.C08Types.table nonStrict (.doc (x05 (serializeScpd fs vars sacts)))
+      = C05.mirrorBody fo Gen.C08Types.table nonStrict (.scpd (specOfScpd fs vars sacts)) := by
+  rw [serviceBody_bridge]
+  apply C05.body_render
+  refine ⟨?_, ?_⟩
+  · intro l hl
+    simp only [specOfScpd, Option.some.injEq] at hl
+    subst hl
+    simpa [List.map_map, Function.comp_def, specOfVar] using hvn
+  · intro lv _ l hl
+    simp only [specOfScpd, Option.some.injEq] at hl
+    subst hl
+    simpa [List.map_map, Function.comp_def, specOfAct] using han
+
+end
 
 end Upnp.C14
